@@ -1,5 +1,6 @@
 """Loopback relay mode shared by C01, C09, C11 (and the socket-level parts of C04/C05/C13/C14): the real access API and
 crossbar wired as relay.Relay wires them, one fresh instance per case, under a virtual clock."""
+import re
 import vlib
 from vlib import hx, unhx
 
@@ -314,7 +315,19 @@ class RelayMode(vlib.Mode):
                 nj = st.get("joined", 0)
                 if nj:
                     case.append(f"close n{rng.randrange(nj)}"); case.append("sync")
-        if any(l.startswith("send ") for l in case) and any(hx("stats") in l for l in case if l.startswith("session ")) and rng.random() < self.settle_prob:
+        def short_lived():
+            # the relay's expiry timers run on REAL time: a token expiring within a few (virtual) seconds of its admission would really expire
+            # during a real-time wait — the model, which knows only the virtual clock, would rightly disagree
+            exps, nows = [], []
+            for l in case:
+                f = l.split(" ")
+                if f[0] == "now": nows.append(int(f[1]))
+                elif f[0] == "session":
+                    m = re.search(r"exp=i(-?\d+)", f[1])
+                    if m: exps.append(int(m.group(1)))
+            return any(0 <= e - n <= 5 for e in exps for n in nows)
+        if any(l.startswith("send ") for l in case) and any(hx("stats") in l for l in case if l.startswith("session ")) and rng.random() < self.settle_prob \
+                and not short_lived():
             case.append("settle 1300")     # the relay's stats reporter drains its queue once a second: whatever was sent on `stats` reaches it
         case.append("sync")
         case.append("members")
